@@ -81,7 +81,10 @@ class CFG:
         self.raise_exit = self._new('raise')
         self._final_memo: Dict[Tuple, int] = {}
         self._ret_value: Dict[int, ast.AST] = {}
-        self._known: Dict[int, Dict[str, object]] = {}
+        # constants (None / bool / str / int literals) that simple local names hold on an out-edge (node id, label):
+        # a conditional constant propagation restricted to straight-line code, used to resolve flag tests
+        # (`reason = None ... if reason is not None:`) per incoming edge instead of merging infeasible paths
+        self._env: Dict[Tuple[int, str], Dict[str, object]] = {}
         self.in_handler: Set[int] = set()  # nodes that belong to the body of an except clause
         body = func_node.body if isinstance(func_node.body, list) else [ast.Return(value=func_node.body)]
         k = _K(self.raise_exit.id, [])
@@ -204,7 +207,54 @@ class CFG:
         n = self._stmt_node('stmt', st, preds, k)
         self._exc_edge(n, k)
         value = getattr(st, 'value', None)
+        env = self._transfer(self._join_env(preds), st)
+        if env:
+            self._env[(n.id, 'next')] = env
         return self._maybe_inline(st, value, [(n.id, 'next')], k)
+
+    # ---- constants on edges
+    def _join_env(self, preds):
+        envs = [self._env.get(p, {}) for p in preds]
+        if not envs:
+            return {}
+        out = dict(envs[0])
+        for e in envs[1:]:
+            out = {k_: v for k_, v in out.items() if k_ in e and e[k_] == v and type(e[k_]) is type(v)}
+        return out
+
+    @staticmethod
+    def _transfer(env, st):
+        env = dict(env)
+        stored = {x.id for x in ast.walk(st) if isinstance(x, ast.Name) and isinstance(x.ctx, (ast.Store, ast.Del))}
+        for nm in stored:
+            env.pop(nm, None)
+        if isinstance(st, ast.Assign) and len(st.targets) == 1 and isinstance(st.targets[0], ast.Name) and isinstance(st.value, ast.Constant) \
+                and (st.value.value is None or isinstance(st.value.value, (bool, str, int))):
+            env[st.targets[0].id] = st.value.value
+        if isinstance(st, (ast.Global, ast.Nonlocal)):
+            return {}
+        return env
+
+    @staticmethod
+    def _decide(expr, env):
+        """Truth value of a test under the constants known on an edge, or None."""
+        if isinstance(expr, ast.Constant):
+            return bool(expr.value)
+        if not env:
+            return None
+        if isinstance(expr, ast.Name) and expr.id in env:
+            return bool(env[expr.id])
+        if isinstance(expr, ast.Compare) and len(expr.ops) == 1 and isinstance(expr.left, ast.Name) and expr.left.id in env and isinstance(expr.comparators[0], ast.Constant):
+            a, b, op = env[expr.left.id], expr.comparators[0].value, expr.ops[0]
+            if isinstance(op, ast.Is):
+                return (a is None and b is None) if (a is None or b is None) else (a is b if isinstance(a, bool) and isinstance(b, bool) else None)
+            if isinstance(op, ast.IsNot):
+                return (not (a is None and b is None)) if (a is None or b is None) else ((a is not b) if isinstance(a, bool) and isinstance(b, bool) else None)
+            if isinstance(op, ast.Eq) and type(a) is type(b):
+                return a == b
+            if isinstance(op, ast.NotEq) and type(a) is type(b):
+                return a != b
+        return None
 
     def _maybe_inline(self, st, value, outs, k: _K):
         """If the statement's value is a call of an inlinable private helper, splice the helper's body after the call node."""
@@ -219,32 +269,42 @@ class CFG:
         if any(isinstance(x, (ast.Yield, ast.YieldFrom)) for x in ast.walk(target)):
             return outs
         self.inlined_defs.append(target)
+        call_env = self._join_env(outs)
         self._inline_stack.append(target)
         rets = []
         kk = _K(k.exc, k.finalizers, None, rets, len(k.finalizers), k.depth + 1)
         body = target.body if isinstance(target.body, list) else [ast.Return(value=target.body)]
-        fall = self._seq(body, outs, kk)
+        # the helper has its own namespace: nothing known about the caller's names applies to its locals
+        ent = self._new('stmt', None, 'inline-entry')
+        self._connect(outs, ent.id)
+        fall = self._seq(body, [(ent.id, 'next')], kk)
         self._inline_stack.pop()
-        self._note_constants(st, rets)
+        self._note_constants(st, fall, rets, call_env)
         return fall + rets
 
-    def _note_constants(self, st, rets):
-        """`a, b = helper()` where a return edge of the inlined helper carries a literal tuple: remember the constant
-        (True / False / None) each name holds on that edge, so that a test on the name that follows immediately is
-        resolved per return site instead of merging infeasible combinations."""
-        if not isinstance(st, ast.Assign) or len(st.targets) != 1:
-            return
-        tgt = st.targets[0]
-        for pid, _lab in rets:
-            v = self._ret_value.get(pid)
-            if v is None:
-                continue
-            if isinstance(tgt, ast.Name) and isinstance(v, ast.Constant) and (v.value is None or isinstance(v.value, bool)):
-                self._known.setdefault(pid, {})[tgt.id] = v.value
-            elif isinstance(tgt, (ast.Tuple, ast.List)) and isinstance(v, ast.Tuple) and len(tgt.elts) == len(v.elts):
-                for te, ve in zip(tgt.elts, v.elts):
-                    if isinstance(te, ast.Name) and isinstance(ve, ast.Constant) and (ve.value is None or isinstance(ve.value, bool)):
-                        self._known.setdefault(pid, {})[te.id] = ve.value
+    def _note_constants(self, st, fall, rets, call_env):
+        """Back in the caller: its own constants hold again; `a, b = helper()` where a return edge of the inlined helper
+        carries a literal tuple binds the constant (True / False / None) each name holds on that edge, so that a test on
+        the name that follows is resolved per return site instead of merging infeasible combinations."""
+        base = self._transfer(call_env, st) if isinstance(st, ast.stmt) else dict(call_env)
+        tgt = st.targets[0] if isinstance(st, ast.Assign) and len(st.targets) == 1 else None
+        for p_ in fall:
+            env = dict(base)
+            if isinstance(tgt, ast.Name):
+                env[tgt.id] = None  # falling off the end returns None
+            self._env[p_] = env
+        for p_ in rets:
+            env = dict(base)
+            v = self._ret_value.get(p_[0])
+            ok_const = lambda c: isinstance(c, ast.Constant) and (c.value is None or isinstance(c.value, (bool, str, int)))
+            if v is not None and tgt is not None:
+                if isinstance(tgt, ast.Name) and ok_const(v):
+                    env[tgt.id] = v.value
+                elif isinstance(tgt, (ast.Tuple, ast.List)) and isinstance(v, ast.Tuple) and len(tgt.elts) == len(v.elts):
+                    for te, ve in zip(tgt.elts, v.elts):
+                        if isinstance(te, ast.Name) and ok_const(ve):
+                            env[te.id] = ve.value
+            self._env[p_] = env
 
     # ---- conditions, conjunct-split with polarity pushing
     def _bool_defs(self, fdef):
@@ -276,17 +336,6 @@ class CFG:
 
     def _cond(self, expr, preds, k: _K, _expanding=()):
         """Returns (true_outs, false_outs)."""
-        if isinstance(expr, ast.Name) and self._known:
-            t_direct, f_direct, rest = [], [], []
-            for pid, lab in preds:
-                kn = self._known.get(pid, {})
-                if expr.id in kn and lab == 'return':
-                    (t_direct if kn[expr.id] else f_direct).append((pid, lab))
-                else:
-                    rest.append((pid, lab))
-            if t_direct or f_direct:
-                t, f = self._cond(expr, rest, k, _expanding) if rest else ([], [])
-                return t + t_direct, f + f_direct
         if isinstance(expr, ast.Name) and expr.id not in _expanding:
             d = self._bool_defs(self._inline_stack[-1]).get(expr.id)
             if d is not None:
@@ -315,11 +364,28 @@ class CFG:
                     t_all += t
                     cur = f
                 return t_all, cur
+        t_direct, f_direct, rest = [], [], []
+        for p_ in preds:
+            d = self._decide(expr, self._env.get(p_))
+            (t_direct if d is True else f_direct if d is False else rest).append(p_)
+        if not rest:
+            return t_direct, f_direct
         n = self._new('test', expr)
-        self._connect(preds, n.id)
+        self._connect(rest, n.id)
         if not getattr(self, '_no_exc', 0):
             self._exc_edge(n, k)
-        return [(n.id, 'T')], [(n.id, 'F')]
+        env = self._join_env(rest)
+        te, fe = dict(env), dict(env)
+        if isinstance(expr, ast.Compare) and len(expr.ops) == 1 and isinstance(expr.left, ast.Name) and isinstance(expr.comparators[0], ast.Constant) and expr.comparators[0].value is None:
+            if isinstance(expr.ops[0], ast.Is):
+                te[expr.left.id] = None
+            elif isinstance(expr.ops[0], ast.IsNot):
+                fe[expr.left.id] = None
+        if te:
+            self._env[(n.id, 'T')] = te
+        if fe:
+            self._env[(n.id, 'F')] = fe
+        return [(n.id, 'T')] + t_direct, [(n.id, 'F')] + f_direct
 
     # ---- try / finally
     def _run_finalizers(self, preds, k: _K, down_to: int):
